@@ -28,7 +28,7 @@ SUPER = ("base_spfs", "ext_spfs", "base_uspfs", "superdtl")
 OPATS = ("", "O0", "O1", "O3", "S1", "x")
 SPATS = ("", "S0", "S2", "O1", "y")
 CLAUSES = {"ClauseRejectStatus", "ClauseRejectWritesNothing", "ClauseExitStatus", "ClauseWritesSolution",
-           "ClauseNodeNames", "ClausePrintedCost", "ClauseDrawAccepts", "ClauseAnyOne", "ClauseAllSupersetOfAny"}
+           "ClauseNodeNames", "ClausePrintedCost", "ClauseLeafAssignment", "ClauseDrawAccepts", "ClauseAnyOne", "ClauseAllSupersetOfAny"}
 
 
 def namings(shape, pats, leaf_name):
@@ -70,8 +70,9 @@ def make_cases(rng, tier):
             lm = {u: rng.choice(sleaves) for u in proj.leaves_of(ot)}
             # leaves follow <species>_<id>
             on = list(onames)
-            for u, s in lm.items():
-                on[u - 1] = f"{snames[s - 1].lower()}_{u}"
+            for u, s in lm.items():   # <species>_<id>, the species part in any letter case
+                sp = snames[s - 1]
+                on[u - 1] = f"{rng.choice([sp.lower(), sp.upper(), sp])}_{u}"
             for alg in ALGS:
                 hassyn = rng.random() < 0.6 if alg in SUPER else rng.random() < 0.3
                 cases.append(Rec(ot=ot, onames=tuple(on), st=st, snames=snames, alg=alg, hassyn=hassyn,
@@ -97,8 +98,8 @@ def run_case(A, case, rng, policy, extra_args=(), with_mapping=True):
     text = json.dumps(data)
     status, out, err = docproj.run_cli(["reconcile", case["alg"], "--solutions", policy] + list(extra_args), text)
     event = {"op": "cli", "alg": case["alg"], "policy": policy, "hassyn": bool(case["hassyn"]),
-             "given": {"onames": [n if u in set(case["ot"]) else n for u, n in enumerate(case["onames"], start=1)],
-                       "snames": list(case["snames"])},
+             "given": {"onames": list(case["onames"]), "snames": list(case["snames"]),
+                       "lm": sorted([u, s] for u, s in dict(case["lm"]).items())},
              "exit": 0 if status is None else (status if isinstance(status, int) else 99), "lines": [], "printed": -1,
              "drawn": [], "input": data, "stderr": err[-300:], "args": list(extra_args)}
     if isinstance(status, mc.Raised):
@@ -113,13 +114,13 @@ def run_case(A, case, rng, policy, extra_args=(), with_mapping=True):
             continue
         parsed = mc.safe(lambda line=line: docproj.parse_line(A, json.loads(line)))
         if isinstance(parsed, mc.Raised):
-            event["lines"].append({"onames": ["<unreadable>"], "snames": ["<unreadable>"], "cost": -3,
+            event["lines"].append({"onames": ["<unreadable>"], "snames": ["<unreadable>"], "cost": -3, "lm": [],
                                    "error": parsed.text})
             event["drawn"].append(False)
             continue
         doc = docproj.document(A, parsed)
         event["lines"].append({"onames": doc["onames"], "snames": doc["snames"], "cost": doc["cost"],
-                               "ot": doc["ot"], "st": doc["st"], "m": doc["m"], "lab": doc["lab"]})
+                               "ot": doc["ot"], "st": doc["st"], "m": doc["m"], "lab": doc["lab"], "lm": doc["lm"]})
         keys.append(json.dumps([doc["m"], doc["lab"]]))
         dstatus, dout, derr = docproj.run_cli(["draw", "tikz", "--orientation", rng.choice(["vertical", "horizontal"])], line)
         event["drawn"].append(dstatus in (None, 0) and "\\begin{tikzpicture}" in dout)
@@ -181,11 +182,14 @@ def run(ctx):
                        if u in set(ot) else f"l{u}" for u in range(1, len(ot) + 1))
         if len({n for n in onames if n}) != len([n for n in onames if n]):
             continue
-        snames = tuple("" if (u in set(st) and rng.random() < 0.6) else f"Sp{u}" for u in range(1, len(st) + 1))
+        under = rng.random() < 0.4     # species names containing underscores
+        snames = tuple("" if (u in set(st) and rng.random() < 0.6) else (f"Sp_{u}" if under else f"Sp{u}")
+                       for u in range(1, len(st) + 1))
         lm = {u: rng.choice(proj.leaves_of(st)) for u in proj.leaves_of(ot)}
         on = list(onames)
         for u, s in lm.items():
-            on[u - 1] = f"{snames[s - 1].lower()}_{u}"
+            sp = snames[s - 1]
+            on[u - 1] = f"{rng.choice([sp.lower(), sp.upper(), sp])}_{u}"
         alg = rng.choice(ALGS)
         case = Rec(ot=ot, onames=tuple(on), st=st, snames=snames, alg=alg, hassyn=rng.random() < 0.7,
                    lm=tuple(sorted(lm.items())))
@@ -194,7 +198,7 @@ def run(ctx):
             args += ["--cost-hgt", rng.choice(["2", "float('inf')", "0"])]
         if rng.random() < 0.3:
             args += ["--cost-dup", rng.choice(["2", "3"])]
-        event, _ = run_case(A, case, rng, rng.choice(["any", "all"]), args)
+        event, _ = run_case(A, case, rng, rng.choice(["any", "all"]), args, with_mapping=rng.random() < 0.5)
         events.append(event)
         ctx.nontrivial.add(case)
     env = dict(os.environ, PYTHONPATH=os.path.join(os.environ.get("VERIF_REPO", "/repo"), "src"), TQDM_DISABLE="1")
@@ -207,13 +211,14 @@ def run(ctx):
         for line in proc.stdout.splitlines():
             parsed = mc.safe(lambda line=line: docproj.parse_line(A, json.loads(line)))
             if isinstance(parsed, mc.Raised):
-                lines.append({"onames": ["<unreadable>"], "snames": ["<unreadable>"], "cost": -3})
+                lines.append({"onames": ["<unreadable>"], "snames": ["<unreadable>"], "cost": -3, "lm": []})
             else:
                 doc = docproj.document(A, parsed)
-                lines.append({"onames": doc["onames"], "snames": doc["snames"], "cost": doc["cost"]})
+                lines.append({"onames": doc["onames"], "snames": doc["snames"], "cost": doc["cost"], "lm": doc["lm"]})
         printed = [l for l in proc.stderr.splitlines() if l.startswith("Minimum cost:")]
         events.append({"op": "cli", "alg": alg, "policy": "any", "hassyn": True,
-                       "given": {"onames": ["", "", "x_1", "x_2", "y_1"], "snames": ["", "X", "Y"]},
+                       "given": {"onames": ["", "", "x_1", "x_2", "y_1"], "snames": ["", "X", "Y"],
+                                 "lm": [[3, 2], [4, 2], [5, 3]]},
                        "exit": proc.returncode, "lines": lines, "printed": int(printed[0].split(":")[1]) if printed else -1,
                        "drawn": [], "input": "data/example.in.json (subprocess)", "stderr": proc.stderr[-200:], "args": []})
     ctx.stage("E3")
@@ -222,8 +227,10 @@ def run(ctx):
                                                  f"violates {cl}: exit {e.get('exit')}, printed {e.get('printed')}, "
                                                  f"lines {[(l.get('onames'), l.get('snames'), l.get('cost'), l.get('error', '')) for l in e.get('lines', [])][:2]}, "
                                                  f"stderr {e.get('stderr', '')!r}; input {e.get('input')}"))
-    lit = [{"op": "cli", "alg": "lca", "policy": "any", "hassyn": False, "given": {"onames": ["", "a_1", "b_2"], "snames": ["", "A", "B"]},
-            "exit": 0, "lines": [{"onames": ["O0", "a_1", "b_2"], "snames": ["S0", "A", "B"], "cost": 0}], "printed": 0,
+    lit = [{"op": "cli", "alg": "lca", "policy": "any", "hassyn": False,
+            "given": {"onames": ["", "a_1", "b_2"], "snames": ["", "A", "B"], "lm": [[2, 2], [3, 3]]},
+            "exit": 0, "lines": [{"onames": ["O0", "a_1", "b_2"], "snames": ["S0", "A", "B"], "cost": 0, "lm": [[2, 2], [3, 3]]}],
+            "printed": 0,
             "drawn": [True]}]
     mc.trace_selftest(ctx, "TracePipeline", lit,
                       lambda s: [dict(s[0], lines=[dict(s[0]["lines"][0], onames=["NoName", "a_1", "b_2"])])],
